@@ -425,6 +425,9 @@ class DictionaryProperty(Property):
         if len(dictified) < 1:
             raise ValueError("must not be empty.")
 
+        if any(v is None for v in dictified.values()):
+            raise ValueError("must not contain null values.")
+
         return dictified, False
 
 
